@@ -76,6 +76,7 @@ CFG = {
         "C18_check",
         "C18_filter",
         "C18_original_condition_incomplete_seq", "C18_original_condition_incomplete_par",
+        "specKeep_bounds", "specKeep_tags", "specKeep_all", "C18_provided_keeps",
     ]],
     "trusted_base": [
         "Lean 4.33.0 kernel; axioms of every theorem printed by #print axioms must be within {propext, Classical.choice, Quot.sound}",
@@ -94,8 +95,10 @@ CFG = {
     ],
     "rule": "generated OSM XML documents of 5-80 (thorough 5-140) elements in 7 file orders (canonical, relations first, ways before nodes, descending ids, "
             "reversed, shuffled within kind, fully shuffled), ways sharing runs of nodes and straddling the bounds, empty ways/relations, relation cycles and "
-            "relations of relations, 10-60% of nodes inside the bounds, a separate stream with dangling references; each document with KeepBounds, a KeepTags "
-            "variant and KeepAll; per case one GOMAXPROCS=1 extraction, 6-48 extractions steered through the wrapped KeepFunc (sleep/Gosched before or after the "
+            "relations of relations, node positions on an integer grid and KeepBounds rectangles whose edges pass exactly through node coordinates "
+            "(all four edges and corners, one-point / zero-width / zero-height / inverted rectangles, rectangles touching the data only along one edge; "
+            "classes *-edge count cases with a selected node ON an edge), a separate stream with dangling references; each document with KeepBounds, a KeepTags "
+            "variant and KeepAll; the Spec side judges against closure(doc, documented selector of the keep function), not the model's keep; per case one GOMAXPROCS=1 extraction, 6-48 extractions steered through the wrapped KeepFunc (sleep/Gosched before or after the "
             "real keep call on seeded object ids) under GOMAXPROCS in {2,3,4,16}, and for tags/all Filter x4 and Filter-of-Filter x4. "
             "distinct = distinct input line; non-trivial = verdict class not '*-skipped'",
     "timeout": {"quick": 900, "thorough": 3000},
